@@ -29,10 +29,15 @@
    Values: "valid" = what this operator proposes itself, "alt" = another value that passes the duty's value
    check, "invalid" = a value that fails it.  A value decided at height h is consensus data for slot h.
 
-   PrevDec = "code"  : prevDecided := State.RunningInstance.IsDecided() (pinned commit).  If the running instance
+   PrevDec = "code"  : prevDecided := State.RunningInstance.IsDecided() (the pinned commit).  If the running instance
                        was pushed out BEFORE it decided it never becomes decided, so every delivery of its height's
-                       decided message signs again (named deviation, C03 finding signed-twice-evicted-undecided).
-   PrevDec = "fixed" : ... || State.DecidedValue != nil (proposed repair).                                      *)
+                       decided message signs again (named deviation; C03 finding signed-twice-evicted-undecided,
+                       repaired in the repository by "fix: a decision already used for the running duty must not be
+                       signed again"; kept as attack config Runner_attack_code_detached*.cfg).
+   PrevDec = "fixed" : ... || State.DecidedValue != nil (the repair).  The check replays the deviation's counterexample
+                       first and generates covers from the variant the tree under test implements.
+   Weaken "prevDecidedFromContainer": prevDecided read from StoredInstances.FindInstance(msg.Height) instead: a DECIDED
+                       running instance that was pushed out is then taken for undecided and signs again on a replay.  *)
 EXTENDS Integers, Sequences, FiniteSets, TLC
 
 CONSTANTS HasPre,     \* TRUE: proposer, aggregator, sync-committee contribution (pre-consensus proof when the duty starts)
